@@ -139,6 +139,13 @@ def run_for(pid):
         ]
         if tot['traces'] == 0 or tot['states'] == 0:
             raise RuntimeError('empty corpus (vacuous run)')
+        if pid == 'C01':
+            # binding self-test: accepted traces stay accepted, every corrupted field is rejected
+            import selftest_core
+            st = selftest_core.run()
+            ctx.coverage['binding_selftest'] = st
+            if st['clean_rejected'] or st['not_rejected'] or st['wrong_clause']:
+                raise RuntimeError('binding self-test failed: %s' % json.dumps(st)[:400])
     return run
 
 
